@@ -102,11 +102,12 @@ func properties() map[string]*PropertySpec {
 		}})
 	add(&PropertySpec{ID: "C06",
 		Functions: "(*conn).serveRequests, serveRequests$1, (*conn).readRequest, newRequest, newResponseWriter, (*Mux).serve",
-		Outside:   []string{"pipelines longer than 3 requests; hundreds of simultaneous connections (connections share no state in serveRequests)", "'without waiting' is decided under the late schedule (spawned handlers run only once the read loop blocks or ends): every handler must observe that all M frames had already been read"},
+		Outside:   []string{"pipelines longer than 3 requests of symbolic kind (257 with concrete frames); hundreds of simultaneous connections (connections share no state in serveRequests)", "'without waiting' is decided under the late schedule (spawned handlers run only once the read loop blocks or ends): every handler must observe that all M frames had already been read"},
 		Harnesses: []HarnessSpec{
 			nat("H_C06_numbering", "numbered", "1..3 frames of symbolic kind (delete, add, extended operation with any name <= 24 bytes other than StartTLS), optional read error at the end; late schedule", ""),
 			nat("H_C03_pairing", "paired", "eager schedule: request j = j-th frame, writer/request pairing", ""),
 			nat("H_C13_starttls", "starttls", "numbering across a StartTLS upgrade at every position of 1..3 frames", ""),
+			eng("H_C06_manyblocked", "many blocked", "a pipeline of 130 or 257 requests (concrete frames) whose handlers all block until the whole pipeline has been dispatched", ""),
 			eng("H_C06_blockedwriter", "blockedwriter", "2..3 pipelined requests on a connection whose client never reads (handlers block inside Write) plus a second connection", ""),
 		}})
 	add(&PropertySpec{ID: "C13",
@@ -178,12 +179,14 @@ func properties() map[string]*PropertySpec {
 		Functions: "(*Server).Stop, (*Server).Run, Run$1 incl. the shutdown watcher, (*conn).serveRequests (shutdown branch), (*conn).close",
 		Outside:   []string{"'bounded time' is decided as termination that needs no client action (no wall-clock figure)", "one connection per scenario (Stop waits on a counter; connections do not interact)"},
 		Harnesses: []HarnessSpec{
+			eng("H_C11_startrace", "start race", "Stop racing with Run's start-up (no connections): every spawn order plus 1..2 preemptions at synchronisation points", ""),
 			eng("H_C11_stop", "stopped", "connection state at Stop: none, idle, TLS handshake pending, pipelining then idle, not reading its responses, Stop arriving between two requests of a pipelining client that never reads (shutdown branch of the read loop, handlers still writing), slow handlers writing after the shutdown notice to a client whose window is full, a connection that Accept returns although Stop has already closed the listener; with/without read timeout; optional concurrent second Stop", ""),
 		}})
 	add(&PropertySpec{ID: "C12",
 		Functions: "(*Server).Stop, (*Server).Run, Run$1 teardown (close, OnClose, connWg.Done), (*conn).close",
 		Outside:   []string{"one connection, one request; the partial-order queries range over all reorderings of each explored trace that keep every thread's observations (maximal causal model), not over traces with different control flow than the explored ones"},
 		Harnesses: []HarnessSpec{
+			eng("H_C11_startrace", "start race", "Stop racing with Run's start-up: once both have returned nothing is left listening", ""),
 			{Name: "H_C12_orders", Reach: []string{"orders"}, PO: poC12,
 				Bound: "Stop before Run / between Listen and the first Accept / right after Accept / during traffic; slow handler and slow OnClose held by gates; Stop twice; spawn-order schedules; per trace: can OnClose.exit, close, handler.exit, accept or every listener close be ordered after both Stop.return and Run.return?"},
 		}})
@@ -192,7 +195,7 @@ func properties() map[string]*PropertySpec {
 		Outside:   []string{"address forms: the ten rows listed in the harness; the resolver's answer and Listen's outcome are symbolic", "after Stop the flag is not required to drop (the property speaks of the interval until Stop is called)"},
 		Harnesses: []HarnessSpec{
 			eng("H_C09_acceptstep", "accept step", "after any number p (0..2^62) of earlier connections Run accepts and serves the next one and keeps running (Ready stays truthful)", ""),
-			eng("H_C17_ready", "run ok", "optionally (TLS) a silent peer that never starts its handshake connects first; the address may be in use at the first attempt to listen; 12 address forms (incl. ports outside 0..65535) x resolver answer x Listen outcome x 0..2 concurrent Ready pollers x spawn-order schedules", ""),
+			eng("H_C17_ready", "run ok", "optionally (TLS) a silent peer that never starts its handshake connects first, or the OnClose callback of an earlier connection is still running; the address may be in use at the first attempt to listen; 12 address forms (incl. ports outside 0..65535) x resolver answer x Listen outcome x 0..2 concurrent Ready pollers x spawn-order schedules", ""),
 		}})
 	td := func(name, reach, bound, tiers string) HarnessSpec {
 		return HarnessSpec{Name: name, Pkg: "testdirectory", Native: true, Reach: []string{reach}, Bound: bound, Tiers: tiers,
